@@ -52,6 +52,9 @@ class StmtMixin:
             if isinstance(v, VNone): return NULL
         if kind == 'optint' and isinstance(v, (VOpt, VNone, VInt)): return self.toopt(v)
         if kind == 'var' and isinstance(v, VLpVar): return v.t
+        if kind == 'aff' and isinstance(v, (VAff, VLpVar, VInt)):
+            from .models_lp import val_of
+            return val_of(self, v, p, line)
         if kind == 'py': return self.topy(v)
         if kind == 'crit':
             if isinstance(v, VUnion):
@@ -153,6 +156,9 @@ class StmtMixin:
                 k = SCHEMA[tgt.attr]
                 p.heap[tgt.attr] = z3.Store(self.heap_get(p, tgt.attr), o.t, self.to_elem(k, v))
                 p.has[tgt.attr] = z3.Store(self.has_get(p, tgt.attr), o.t, z3.BoolVal(True)); return
+            if isinstance(o, VExt) and o.tag == 'LpProblem' and tgt.attr == 'objective':
+                from .models_lp import val_of
+                p.ghost['objective'] = val_of(self, v, p, line); return
             raise Undecided('attribute assignment on %r' % (o,))
         if isinstance(tgt, ast.Subscript):
             if isinstance(tgt.slice, ast.Slice): raise Undecided('slice assignment')
@@ -461,8 +467,16 @@ class StmtMixin:
                 self.havoc_ghost(m[1], p, tag)
 
     def havoc_ghost(self, name, p, tag):
+        if name in ('feas', 'feas_at_solve'):
+            p.ghost[name] = self.fresh_feas(tag.replace('@', '_')); return       # a predicate on valuations, applied to the ghost valuation
         t = p.ghost.get(name)
-        if t is None and name == 'feas': t = z3.Bool('FEAS0')
+        if t is None:
+            if name in ('status', 'solves'): t = z3.Int('x')
+            elif name == 'hist': t = z3.Array('h', I, I)
+            elif name == 'val': t = z3.Array('v', Var, I)
+            elif name == 'objective': t = z3.Int('x')
+            elif name.startswith('used:'): t = z3.Bool('b')
+            elif name.startswith('rec:'): t = None
         if t is None or not z3.is_expr(t): raise Undecided('cannot havoc ghost ' + name)
         p.ghost[name] = fresh(name.replace(':', '_') + tag, t.sort())
 
@@ -482,7 +496,8 @@ class StmtMixin:
         if itl is not None:
             for f in listsets.on_iter_init(itl.term()): p.assume(f)
         rec = lc.get('record', {})
-        for nm, (kind, src) in rec.items():
+        rec = {nm: (v + (None,))[:3] for nm, v in rec.items()}
+        for nm, (kind, src, at_src) in rec.items():
             p.ghost.setdefault('rec:' + nm, fresh('REC_' + nm, z3.ArraySort(I, sort_of(kind))))
         # 1. initiation
         self.inv_eval(lc, ordinal, p, z3.IntVal(0), 'init', assume=False)
@@ -506,11 +521,23 @@ class StmtMixin:
                 for f in listsets.on_iter_step(itl.term(), k, z3.Select(itl.arr, k)): h.assume(f)
         if self.feasible(h):
             if 'variant' in lc and is_while: v0 = self.spec_int(lc['variant'], h)
-            for st, r, pay in self.exec_block(s.body, [h]):
+            self.iter_snaps.append(h.fork())           # state at the start of the iteration: prev(expr) in lemma bindings
+            try: body_res = self.exec_block(s.body, [h])
+            finally: snap = self.iter_snaps.pop()
+            for st, r, pay in body_res:
+                if st not in ('normal', 'continue'):
+                    # paths leaving the loop from inside the body still belong to iteration k of the ghost history
+                    for nm, (kind, src, at_src) in rec.items():
+                        try: val = self.spec_value(src, r); idx = self.spec_value(at_src, r).t if at_src else k
+                        except (Undecided, StaleContract): continue
+                        r.ghost['rec:' + nm] = z3.Store(r.ghost['rec:' + nm], idx, self.to_elem(kind, val))
                 if st in ('normal', 'continue'):
-                    for nm, (kind, src) in rec.items():      # ghost history: value of a specification expression in iteration k
-                        val = self.spec_value(src, r)
-                        r.ghost['rec:' + nm] = z3.Store(r.ghost['rec:' + nm], k, self.to_elem(kind, val))
+                    self.iter_snaps.append(snap)
+                    try: self.apply_lemmas('loop%d.body_end' % ordinal, r)
+                    finally: self.iter_snaps.pop()
+                    for nm, (kind, src, at_src) in rec.items():      # ghost history: value of a specification expression in iteration k
+                        val = self.spec_value(src, r); idx = self.spec_value(at_src, r).t if at_src else k
+                        r.ghost['rec:' + nm] = z3.Store(r.ghost['rec:' + nm], idx, self.to_elem(kind, val))
                     self.inv_eval(lc, ordinal, r, k + 1, 'preserve', assume=False)
                     if 'variant' in lc and is_while:
                         v1 = self.spec_int(lc['variant'], r)
@@ -555,6 +582,7 @@ class StmtMixin:
             if isinstance(o, VObj):
                 if isinstance(p.objs[o.oid].get(t.attr), VExt) and p.objs[o.oid][t.attr].tag == 'LpProblem': return {('ghost', 'feas')}
                 return {('field', o.oid, t.attr)}
+            if isinstance(o, VExt) and o.tag == 'LpProblem': return {('ghost', 'objective')}
             if isinstance(o, VRef) or t.attr in SCHEMA: return {('heap', t.attr)}
             raise Undecided('cannot determine frame of write to .%s (line %d)' % (t.attr, t.lineno))
         if isinstance(t, (ast.Tuple, ast.List)):
